@@ -107,7 +107,27 @@ example : FullText.WF []
     simp only [List.mem_cons, List.mem_nil_iff, or_false] at hx
     rcases hx with rfl | rfl | rfl <;>
       simp [FullText.Stmt.WF, Layout.IsBlanks, ExprText.IsBlanks, Layout.Term.WF, Decl.WF, IsFnName, IsParam, BLine.WF, BStmt.WF,
-        ExprText.IsLabel, XArgs.WF, XMore.WF, XSeq.WF, XRest.WF, XTerm.WF, PChar.WF, reservedPrefix, isAlpha, isAlnum, toDigit,
+        ExprText.IsLabel, XArgs.WF, XMore.WF, XSeq.WF, XRest.WF, XTerm.WF, PChar.WF, reservedName, isAlpha, isAlnum, toDigit,
+        Radix.minDigits, Radix.base, IsCommentBody] <;> decide
+  · simp [FullText.OpenOnlyLast, Layout.Term.isOpen]
+
+open Asm.Layout Asm.ExprText Asm.FullText in
+-- the family accepts invocation names that merely START with a builtin word or with `end` (only the exact words `push`,
+-- `import`, `include`, `include_hex` and the prefixes `macro` / `def` are reserved, `reservedName`):
+-- `%macro m()` / `%endx()` / `%end` ; `%push_all(1)` ; `%include_hexx()`
+example : FullText.WF []
+    [⟨[], .macroDef [32] ⟨[109], [], []⟩ [] none false []
+        [⟨[], .invoke [101, 110, 100, 120] [] (.none []), [], none, false, []⟩] [],
+      .line [] none false []⟩,
+     ⟨[], .plain (.invoke [112, 117, 115, 104, 95, 97, 108, 108] [] (.some [] (.mk (.num .dec [49]) .nil) [] .nil)),
+      .line [] none false []⟩,
+     ⟨[], .plain (.invoke [105, 110, 99, 108, 117, 100, 101, 95, 104, 101, 120, 120] [32] (.none [])), .open_ [] none⟩] := by
+  refine ⟨(by intro b hb; cases hb), ?_, ?_⟩
+  · intro x hx
+    simp only [List.mem_cons, List.mem_nil_iff, or_false] at hx
+    rcases hx with rfl | rfl | rfl <;>
+      simp [FullText.Stmt.WF, Layout.IsBlanks, ExprText.IsBlanks, Layout.Term.WF, Decl.WF, IsFnName, BLine.WF, BStmt.WF,
+        XArgs.WF, XMore.WF, XSeq.WF, XRest.WF, XTerm.WF, reservedName, isAlpha, isAlnum, toDigit,
         Radix.minDigits, Radix.base, IsCommentBody] <;> decide
   · simp [FullText.OpenOnlyLast, Layout.Term.isOpen]
 
